@@ -222,6 +222,7 @@ func report(o *Options, p *Program, v *Verifier, keys []string, obls []*Obligati
 		"solver_time_s":            float64(solverMs) / 1000.0,
 		"not_claimed_obligations":  notClaimed,
 		"vacuity_unknown":          vacuityUnknown,
+		"unreachable_end_of_path":  v.unreachable,
 		"engine_errors":            engineErrs,
 		"bounded":                  []string{},
 		"not_covered":              propNote,
